@@ -3831,6 +3831,10 @@ func (r *JournalReader) ReadFrame() (pgno uint32, data []byte, err error) {
 	chksum := binary.BigEndian.Uint32(r.frame[len(r.frame)-4:])
 
 	if chksum != JournalChecksum(data, r.nonce) {
+		// SQLite ends the whole playback at the first record whose checksum
+		// does not match; it does not look for another header behind it.
+		r.frameN = 0
+		r.offset = r.fi.Size()
 		return 0, nil, io.EOF
 	}
 
